@@ -1,0 +1,63 @@
+use trusttunnel::settings::{TlsHostInfo, TlsHostsSettings};
+
+#[allow(dead_code)]
+mod common;
+
+fn host(hostname: &str, cert_key_path: &str, allowed_sni: &[&str]) -> TlsHostInfo {
+    TlsHostInfo {
+        hostname: hostname.to_string(),
+        cert_chain_path: cert_key_path.to_string(),
+        private_key_path: cert_key_path.to_string(),
+        allowed_sni: allowed_sni.iter().map(|x| x.to_string()).collect(),
+    }
+}
+
+#[test]
+fn alternative_sni_selects_one_host() {
+    let cert_key_file = common::make_cert_key_file();
+    let path = cert_key_file.path.to_str().unwrap();
+
+    let build = |main_hosts: Vec<TlsHostInfo>, ping_hosts: Vec<TlsHostInfo>| {
+        TlsHostsSettings::builder()
+            .main_hosts(main_hosts)
+            .ping_hosts(ping_hosts)
+            .build()
+    };
+
+    // Distinct names, a name may be repeated within a host
+    assert!(build(
+        vec![
+            host("a.org", path, &["x.org", "a.org", "x.org"]),
+            host("b.org", path, &["y.org"]),
+        ],
+        vec![host("ping.a.org", path, &[])],
+    )
+    .is_ok());
+
+    // Shared by two hosts
+    assert!(build(
+        vec![
+            host("a.org", path, &["x.org"]),
+            host("b.org", path, &["y.org", "x.org"]),
+        ],
+        vec![],
+    )
+    .is_err());
+
+    // Equal to the name of another host, whichever comes first
+    assert!(build(
+        vec![host("a.org", path, &["b.org"]), host("b.org", path, &[])],
+        vec![],
+    )
+    .is_err());
+    assert!(build(
+        vec![host("a.org", path, &[]), host("b.org", path, &["a.org"])],
+        vec![],
+    )
+    .is_err());
+    assert!(build(
+        vec![host("a.org", path, &["ping.a.org"])],
+        vec![host("ping.a.org", path, &[])],
+    )
+    .is_err());
+}
